@@ -228,6 +228,10 @@ pub struct GraphWorld {
     explain: String,
     /// what each observer slot returned at the probe right after the last stabilise (C07)
     last_read: Vec<Option<Result<Val, ObsErr>>>,
+    /// per observer slot: running hash of everything observed *through that observer* (its
+    /// reads after every action, the notifications of its subscriptions) - the projection used
+    /// by the differential oracle of C10 ("no call affects another observer")
+    pub slot_hash: Vec<u64>,
     pub machinery: Vec<String>,
 }
 
@@ -357,6 +361,14 @@ impl GraphWorld {
         self.obs.borrow_mut().slots.push(vec![o]);
     }
 
+    fn inner2_key(&self, b: u8, k: u8, k2: u8) -> Key {
+        let bk = Key::Outer(b);
+        let gen = self.model.nodes[&bk].gen;
+        let ik = Key::inner(&bk, gen, k);
+        let igen = self.model.nodes[&ik].gen;
+        Key::inner(&ik, igen, k2)
+    }
+
     fn resolve(&self, key: &Key) -> Option<Incr<Val>> {
         match key {
             Key::Outer(i) => self.nodes.get(*i as usize).cloned().flatten(),
@@ -387,6 +399,12 @@ impl GraphWorld {
                 self.observe_real(&i);
                 None
             }
+            Act::ObserveInner2(b, k, k2) => {
+                let key = self.inner2_key(*b, *k, *k2);
+                let i = self.resolve(&key).expect("stashed nested inner node is gone");
+                self.observe_real(&i);
+                None
+            }
             Act::CloneObs(s) => {
                 let mut t = self.obs.borrow_mut();
                 let c = t.slots[*s as usize][0].clone();
@@ -407,6 +425,10 @@ impl GraphWorld {
             Act::Subscribe(s) => {
                 let idx = self.subs.len() as u8;
                 let h = self.obs.borrow().slots[*s as usize][0].clone();
+                let own_token: Rc<Cell<Option<SubscriptionToken>>> = Rc::new(Cell::new(None));
+                let own_token_ = own_token.clone();
+                let self_unsub = self.prog.alpha.handler_self_unsub;
+                let weak_state = self.state.weak();
                 let r = h.try_subscribe(move |u: Update<&Val>| {
                     IN_HANDLER.with(|c| c.set(Some(idx)));
                     enter();
@@ -415,12 +437,19 @@ impl GraphWorld {
                         Update::Changed(x) => Upd::Changed(x.clone()),
                         Update::Invalidated => Upd::Invalidated,
                     };
+                    let is_changed = matches!(update, Upd::Changed(_));
                     log(Ev::Handler { sub: idx, update });
+                    if self_unsub && is_changed {
+                        if let Some(t) = own_token_.get() {
+                            weak_state.unsubscribe(t);
+                        }
+                    }
                     IN_HANDLER.with(|c| c.set(None));
                 });
                 drop(h);
                 match r {
                     Ok(tok) => {
+                        own_token.set(Some(tok));
                         self.subs.push((*s, tok));
                         Some(Ok(()))
                     }
@@ -487,6 +516,14 @@ impl GraphWorld {
             Act::ObserveInner(b, k) => {
                 let gen = m.nodes[&Key::Outer(*b)].gen;
                 m.observe(Key::inner(&Key::Outer(*b), gen, *k), false);
+                (None, None)
+            }
+            Act::ObserveInner2(b, k, k2) => {
+                let bk = Key::Outer(*b);
+                let gen = m.nodes[&bk].gen;
+                let ik = Key::inner(&bk, gen, *k);
+                let igen = m.nodes[&ik].gen;
+                m.observe(Key::inner(&ik, igen, *k2), false);
                 (None, None)
             }
             Act::CloneObs(s) => {
@@ -858,6 +895,10 @@ impl GraphWorld {
             for h in handles.iter() {
                 let got = h.try_get_value().map_err(|e| ObsErr::from_real(&e));
                 self.obs_hash = hash64(&(self.obs_hash, s, &got));
+                while self.slot_hash.len() <= s {
+                    self.slot_hash.push(0);
+                }
+                self.slot_hash[s] = hash64(&(self.slot_hash[s], &got));
                 let held = self.last_read[s].clone();
                 if after_stabilise {
                     self.last_read[s] = Some(got.clone());
@@ -943,6 +984,7 @@ impl World for GraphWorld {
             counters: Counters::new(),
             explain: String::new(),
             last_read: vec![],
+            slot_hash: vec![],
             machinery: vec![],
         };
         for i in 0..prog.precreated {
@@ -991,6 +1033,17 @@ impl World for GraphWorld {
                         let n = &m.nodes[mk];
                         if n.valid && !matches!(n.kind, RKind::Dead) && self.resolve(mk).is_some() {
                             out.push(Act::ObserveInner(*b, *k));
+                        }
+                        // nodes made by a nested bind, while that nested bind is the pinned bind's
+                        // current right-hand side (so that it is needed, DESIGN §8)
+                        if n.valid && matches!(n.kind, RKind::Bind { .. }) && n.gen > 0 && bn.rhs.as_ref() == Some(mk) {
+                            for mk2 in n.made.iter() {
+                                let Key::Inner(_, _, k2) = mk2 else { continue };
+                                let n2 = &m.nodes[mk2];
+                                if n2.valid && !matches!(n2.kind, RKind::Dead) && self.resolve(mk2).is_some() {
+                                    out.push(Act::ObserveInner2(*b, *k, *k2));
+                                }
+                            }
                         }
                     }
                 }
@@ -1117,6 +1170,13 @@ impl World for GraphWorld {
                 }
                 sm.last = Some(u.clone());
             }
+            if self.prog.alpha.handler_self_unsub {
+                for (s, u) in out.notes.iter() {
+                    if matches!(u, Upd::Changed(_)) {
+                        self.model.subs[*s as usize].active = false;
+                    }
+                }
+            }
             for s in out.optional_invalidated.iter() {
                 let sm = &mut self.model.subs[*s as usize];
                 sm.got_any = true;
@@ -1125,6 +1185,13 @@ impl World for GraphWorld {
             for ev in log.iter() {
                 if let Ev::Handler { sub, update } = ev {
                     self.obs_hash = hash64(&(self.obs_hash, sub, update));
+                    if let Some((slot, _)) = self.subs.get(*sub as usize) {
+                        let slot = *slot as usize;
+                        while self.slot_hash.len() <= slot {
+                            self.slot_hash.push(0);
+                        }
+                        self.slot_hash[slot] = hash64(&(self.slot_hash[slot], sub, update));
+                    }
                 }
             }
             self.model.adopt(&log, out);
